@@ -4,7 +4,9 @@ Model of how tabula walks a container document (C18): `xlsx/reader.go`
 (parseRelationships, parsePresentation, declaredSlidePaths, parseSlides,
 extractSlideNumber), `epubdoc/container.go` (parseContainer), `epubdoc/opf.go`
 (parseOPF, convertManifest, convertSpine), `epubdoc/reader.go` (loadChapters,
-resolveHref) — the Go code as it is after the three `fix:` commits of C18.
+resolveHref) — the Go code as it is after the three `fix:` commits of C18 and after
+`fix: a resource listed several times in an EPUB spine is one chapter` (c53b79e:
+`loadChapters` keeps the set of resolved hrefs already loaded).
 
 Core Lean only. Strings are byte lists (`Str = List Nat`). An archive is the
 list of ZIP members `(name, content-id)` in archive order. `archive/zip` and
@@ -418,7 +420,9 @@ def parseOPF (look : Str → Option Nat) (x : Docs) (opfPath : Str) :
 def chapterPath (base : Str) (manifest : List (Str × Str)) (idref : Str) : Option Str :=
   (mapLast? manifest idref).map (resolveHref base)
 
-/-- one spine entry of `loadChapters` -/
+/-- one spine entry of `loadChapters` once it is past the `loaded` check: read the
+member the entry resolves to (`continue` when the id is not in the manifest or the
+member is missing) -/
 def epubPart (look : Str → Option Nat) (base : Str) (manifest : List (Str × Str)) (i : Nat) (idref : Str) :
     Option ChapterPart :=
   match chapterPath base manifest idref with
@@ -427,9 +431,28 @@ def epubPart (look : Str → Option Nat) (base : Str) (manifest : List (Str × S
     | none => none
     | some c => some (i, c, p, idref)
 
-/-- the loop of `loadChapters` -/
+/-- the loop of `loadChapters` (after `fix: a resource listed several times in an EPUB
+spine is one chapter`). `seen` is the Go map `loaded`: the RESOLVED hrefs
+(`r.resolveHref(item.Href)`) of the spine entries met so far. An entry whose id is not
+in the manifest is skipped without touching `loaded`; an entry whose resolved href is
+in `loaded` is skipped (`continue // already a chapter`); otherwise the href is marked
+BEFORE the member is read, so a missing member marks it too. `Chapter.Index` stays the
+spine position `i` (the index keeps counting over skipped entries). -/
+def epubLoopS (look : Str → Option Nat) (base : Str) (manifest : List (Str × Str)) :
+    List Str → Nat → List Str → List ChapterPart
+  | _, _, [] => []
+  | seen, i, idref :: rest =>
+    match chapterPath base manifest idref with
+    | none => epubLoopS look base manifest seen (i + 1) rest
+    | some p =>
+      if p ∈ seen then epubLoopS look base manifest seen (i + 1) rest
+      else match look p with
+        | none => epubLoopS look base manifest (p :: seen) (i + 1) rest
+        | some c => (i, c, p, idref) :: epubLoopS look base manifest (p :: seen) (i + 1) rest
+
+/-- `loadChapters`: the loop started with an empty `loaded` map -/
 def epubLoop (look : Str → Option Nat) (base : Str) (manifest : List (Str × Str)) : Nat → List Str → List ChapterPart :=
-  loopIdx (epubPart look base manifest)
+  epubLoopS look base manifest []
 
 /-- container → package document → (base, manifest, spine) -/
 def epubDeclared (look : Str → Option Nat) (x : Docs) : Option (Str × List (Str × Str) × List Str) :=
